@@ -52,6 +52,27 @@ def _auto_ids() -> dict[str, int]:
     return _auto_rank
 
 
+def auto_name(ty: int, req: dict | None) -> str:
+    """the default waiter name of a request, from the documented format (awaited class, text of the whole requirements dict)"""
+    t = ET.TYPES[ty]
+    return f"waiter_{t.__module__}.{t.__name__}_{req or {}}"
+
+
+def auto_table() -> list[tuple[int, int | None, int]]:
+    """(awaited type, requirement value on `k` or None for no requirement, number) for every default waiter name the harness can
+    meet -- the `autoids` table of the engine driver (`{"k": None}` is left out: the token format cannot tell it from {})"""
+    ids = _auto_ids()
+    out = []
+    for ty in range(len(ET.TYPES)):
+        for k in (None, 0, 1, 2, 3, 4, 5):
+            out.append((ty, k, ids[auto_name(ty, None if k is None else {"k": k})]))
+    return out
+
+
+def autoids_line() -> str:
+    return "autoids " + lst([f"{ty} {num(k)} {n}" for ty, k, n in auto_table()])
+
+
 def waiter_id(w: str) -> str:
     if len(w) == 3 and w[0] == "w" and w[1:].isdigit():
         return str(int(w[1:]))
